@@ -294,7 +294,7 @@ func runC03(c *core.Ctx) {
 		case 0, 1:
 			src = wl.SoupFrom(r, c03Tokens, 1+r.Intn(14))
 		case 2:
-			src = wl.Mix(r, corpus)
+			src = mixDoc(r, corpus)
 		default:
 			// adversarial fragments spliced into a corpus item
 			src = []byte(corpus[r.Intn(len(corpus))].Markdown)
